@@ -117,4 +117,178 @@ theorem Dec_any (c : Cfg) (hmode : c.protoToAny = false) (tn tlit nlit vlit : By
   elem := fun h => by simp [itemSimple] at h
   mapv := fun h => by simp [itemSimple] at h
 
+/-! ## `google.protobuf.Any` -/
+
+theorem stripPrefix_append : ∀ (pfx s : Bytes), stripPrefix pfx (pfx ++ s) = some s
+  | [], s => by simp [stripPrefix]
+  | p :: ps, s => by simp [stripPrefix, stripPrefix_append ps s]
+
+theorem trimPrefix_append (pfx s : Bytes) : trimPrefix (pfx ++ s) pfx = s := by
+  unfold trimPrefix; rw [stripPrefix_append]
+
+/-- what the encoder writes for a protobuf `Any` whose content unmarshals to `inner` -/
+theorem enc_any_pb (env : Env) (O : Oracle) (F : Nat) (url val : Bytes) (iroot : String)
+    (inner : PVal) (data : PTree) (hroot : encRoot env O (F + 1) iroot inner = .ok data)
+    (hu : isValidUtf8 (trimPrefix url anyPrefix) = true) :
+    ∃ tlit nlit vlit, encValue env O (F + 2) (.any true) (.anyPb url val .inn iroot inner) =
+      .ok (.obj (.cons typeKey tlit (.str (trimPrefix url anyPrefix) nlit)
+        (.cons valueKey vlit data (.nil .closed)))) := by
+  obtain ⟨tlit, htl⟩ := (appendString_total typeKey).2.1 (by decide)
+  obtain ⟨vlit, hvl⟩ := (appendString_total valueKey).2.1 (by decide)
+  obtain ⟨nlit, hnl⟩ := strNode_ok _ hu
+  refine ⟨tlit, nlit, vlit, ?_⟩
+  simp [encValue, hroot, htl, hvl, hnl]
+
+/-- the decoder built `WithProtoToAny` reading the framed value into a protobuf `Any` property -/
+theorem dec_any_pb (c : Cfg) (hmode : c.protoToAny = true) (hdepth : c.anyDepth < maxAnyDepth)
+    (props : List PropDef) (p : PropDef) (st : PS) (tn tlit nlit vlit : Bytes) (data : PTree)
+    (iroot : String) (fs : Fields)
+    (hf : p.field = .any true) (hp : p.path ≠ []) (hs : p.jsonName ∉ st.seen)
+    (hgb : groupBusy props p st.m = false) (hc : data.complete = true) (hd : data.depth ≤ 10000)
+    (hres : c.env.resolve tn = some iroot)
+    (hdec : decRootTree { c with anyDepth := c.anyDepth + 1 } iroot data = .ok fs)
+    (hne : fs ≠ []) :
+    decProp c props p
+        (.obj (.cons typeKey tlit (.str tn nlit) (.cons valueKey vlit data (.nil .closed)))) st =
+      .ok { m := updPath props p (some (.anyPb (anyPrefixB ++ tn) [] .inn iroot (.msg fs))) st.m,
+            seen := p.jsonName :: st.seen } := by
+  have hpe : p.path.isEmpty = false := by
+    cases hpp : p.path with
+    | nil => exact absurd hpp hp
+    | cons a b => rfl
+  have hpop : popValueAsBytes data = some data.render := by
+    unfold popValueAsBytes; simp [hc, hd]
+  have hvk : ascii "value" ≠ ascii "!type" := by decide
+  have hfe : fs.isEmpty = false := by
+    cases fs with
+    | nil => exact absurd rfl hne
+    | cons a b => rfl
+  have hnd : ¬ (c.anyDepth ≥ maxAnyDepth) := Nat.not_le.mpr hdepth
+  unfold decProp; rw [hf]
+  simp only [createField_fresh props p st hs hgb, Outcome.bind, hpe, Bool.false_eq_true, if_false]
+  simp only [finalType, finalType.typeKeyB, decAnyMembers, typeKey, valueKey, if_true, hvk, if_false,
+    ne_eq, not_true_eq_false, Option.isSome_none, Bool.false_eq_true, hpop, hnd, hres, hdec]
+  simp [finishAnyProp, Outcome.bind, hmode, closeOk, hfe]
+
+/-- what `valOk` says about a protobuf `Any` value -/
+theorem valOk_anyPb (env : Env) (O : Oracle) (v : PVal) (h : valOk env O (.any true) v = true) :
+    ∃ tn iroot fs, v = .anyPb (anyPrefixB ++ tn) [] .inn iroot (.msg fs) ∧ fs ≠ [] ∧
+      isValidUtf8 tn = true ∧ env.resolve tn = some iroot ∧
+      (valOk env O (.object iroot) (.msg fs) = true ∨ valOk env O (.oneof iroot) (.msg fs) = true) := by
+  cases v with
+  | anyPb url value ik iroot inner =>
+    unfold valOk at h
+    split at h
+    · next heq1 heq2 =>
+      simp only [Bool.and_eq_true, Bool.or_eq_true, beq_iff_eq] at h
+      obtain ⟨⟨⟨⟨hin, hurl⟩, hu⟩, hres⟩, hok⟩ := h
+      cases inner with
+      | msg fs =>
+        simp only [Bool.not_eq_true', List.isEmpty_eq_false_iff] at hin
+        exact ⟨url.drop anyPrefixB.length, iroot, fs, by rw [← hurl], hin, hu, hres, hok⟩
+      | _ => simp at hin
+    · cases h
+  | _ => simp [valOk] at h
+
+/-- the framed value decodes (codec `WithProtoToAny`, fewer than `maxAnyDepth` enclosing `Any`
+values) to the protobuf `Any` whose content is what the inner document decodes to -/
+theorem Dec_anyPb (c : Cfg) (hmode : c.protoToAny = true) (hdepth : c.anyDepth < maxAnyDepth)
+    (tn tlit nlit vlit : Bytes) (data : PTree) (iroot : String) (fs : Fields)
+    (hc : data.complete = true) (hd : data.depth ≤ 10000) (hres : c.env.resolve tn = some iroot)
+    (hdec : decRootTree { c with anyDepth := c.anyDepth + 1 } iroot data = .ok fs) (hne : fs ≠ []) :
+    Dec c (.any true) (.anyPb (anyPrefixB ++ tn) [] .inn iroot (.msg fs))
+      (.obj (.cons typeKey tlit (.str tn nlit) (.cons valueKey vlit data (.nil .closed)))) where
+  prop := fun props p st hf hp hs _ hgb =>
+    dec_any_pb c hmode hdepth props p st tn tlit nlit vlit data iroot fs hf hp hs hgb hc hd hres hdec hne
+  elem := fun h => by simp [itemSimple] at h
+  mapv := fun h => by simp [itemSimple] at h
+
+/-! ## `modeOk`: propagation to the parts of a value -/
+
+theorem modeOk_aget (p : Bool) (F d : Nat) : ∀ (m : Fields) (k : Nat) (v : PVal),
+    modeOkF p F d m = true → aget k m = some v → modeOk p F d v = true
+  | [], _, _, _, h => by simp [aget] at h
+  | (k', v') :: rest, k, v, hm, h => by
+    simp only [modeOkF, Bool.and_eq_true] at hm
+    simp only [aget] at h
+    split at h
+    · cases h; exact hm.1
+    · exact modeOk_aget p F d rest k v hm.2 h
+
+theorem modeOk_getPath (p : Bool) (F d : Nat) : ∀ (path : List Nat) (m : Fields) (v : PVal),
+    modeOkF p F d m = true → getPath m path = some v → modeOk p F d v = true
+  | [], _, _, _, h => by simp [getPath] at h
+  | [k], m, v, hm, h => by simp only [getPath] at h; exact modeOk_aget p F d m k v hm h
+  | k :: k2 :: r, m, v, hm, h => by
+    simp only [getPath] at h
+    split at h
+    · next sub hsub =>
+      have := modeOk_aget p F d m k _ hm hsub
+      simp only [modeOk] at this
+      exact modeOk_getPath p F d (k2 :: r) sub v this h
+    · cases h
+
+theorem modeOk_mem_list (p : Bool) (F d : Nat) : ∀ (xs : List PVal) (x : PVal),
+    modeOkL p F d xs = true → x ∈ xs → modeOk p F d x = true
+  | [], _, _, h => by cases h
+  | a :: r, x, hx, h => by
+    simp only [modeOkL, Bool.and_eq_true] at hx
+    rcases List.mem_cons.mp h with rfl | h'
+    · exact hx.1
+    · exact modeOk_mem_list p F d r x hx.2 h'
+
+theorem modeOk_mem_map (p : Bool) (F d : Nat) : ∀ (kvs : List (Bytes × PVal)) (k : Bytes) (v : PVal),
+    modeOkM p F d kvs = true → (k, v) ∈ kvs → modeOk p F d v = true
+  | [], _, _, _, h => by cases h
+  | (k', v') :: r, k, v, hx, h => by
+    simp only [modeOkM, Bool.and_eq_true] at hx
+    rcases List.mem_cons.mp h with heq | h'
+    · cases heq; exact hx.1
+    · exact modeOk_mem_map p F d r k v hx.2 h'
+
+mutual
+/-- a smaller fuel cap is easier -/
+theorem modeOk_anti (p : Bool) (F F' : Nat) (hF : F' ≤ F) : (v : PVal) → (d : Nat) →
+    modeOk p F d v = true → modeOk p F' d v = true
+  | .anyJ5 .., d, h => by simpa [modeOk] using h
+  | .anyPb a b c e inner, d, h => by
+    simp only [modeOk, Bool.and_eq_true, decide_eq_true_eq] at h ⊢
+    exact ⟨⟨⟨h.1.1.1, h.1.1.2⟩, Nat.le_trans hF h.1.2⟩, modeOk_anti p F F' hF inner (d + 1) h.2⟩
+  | .msg fs, d, h => by
+    simp only [modeOk] at h ⊢; exact modeOkF_anti p F F' hF fs d h
+  | .list xs, d, h => by
+    simp only [modeOk] at h ⊢; exact modeOkL_anti p F F' hF xs d h
+  | .map kvs, d, h => by
+    simp only [modeOk] at h ⊢; exact modeOkM_anti p F F' hF kvs d h
+  | .bool _, _, _ => by simp [modeOk]
+  | .int _, _, _ => by simp [modeOk]
+  | .uint _, _, _ => by simp [modeOk]
+  | .f32 _, _, _ => by simp [modeOk]
+  | .f64 _, _, _ => by simp [modeOk]
+  | .str _, _, _ => by simp [modeOk]
+  | .bytes _, _, _ => by simp [modeOk]
+  | .enum _, _, _ => by simp [modeOk]
+  | .ts _ _, _, _ => by simp [modeOk]
+  | .date _ _ _, _, _ => by simp [modeOk]
+  | .dec _, _, _ => by simp [modeOk]
+theorem modeOkF_anti (p : Bool) (F F' : Nat) (hF : F' ≤ F) : (fs : List (Nat × PVal)) → (d : Nat) →
+    modeOkF p F d fs = true → modeOkF p F' d fs = true
+  | [], _, _ => by simp [modeOkF]
+  | (_, v) :: rest, d, h => by
+    simp only [modeOkF, Bool.and_eq_true] at h ⊢
+    exact ⟨modeOk_anti p F F' hF v d h.1, modeOkF_anti p F F' hF rest d h.2⟩
+theorem modeOkL_anti (p : Bool) (F F' : Nat) (hF : F' ≤ F) : (xs : List PVal) → (d : Nat) →
+    modeOkL p F d xs = true → modeOkL p F' d xs = true
+  | [], _, _ => by simp [modeOkL]
+  | v :: rest, d, h => by
+    simp only [modeOkL, Bool.and_eq_true] at h ⊢
+    exact ⟨modeOk_anti p F F' hF v d h.1, modeOkL_anti p F F' hF rest d h.2⟩
+theorem modeOkM_anti (p : Bool) (F F' : Nat) (hF : F' ≤ F) : (kvs : List (Bytes × PVal)) → (d : Nat) →
+    modeOkM p F d kvs = true → modeOkM p F' d kvs = true
+  | [], _, _ => by simp [modeOkM]
+  | (_, v) :: rest, d, h => by
+    simp only [modeOkM, Bool.and_eq_true] at h ⊢
+    exact ⟨modeOk_anti p F F' hF v d h.1, modeOkM_anti p F F' hF rest d h.2⟩
+end
+
 end J5V.Codec
